@@ -45,6 +45,25 @@ def generate(rng, tier):
             v = (np.array(v) * sc).tolist()
             fam += "_scaled"
         cases.append({"family": fam, "v": v, "t": t, "tdtype": rng.choice(["int64", "int32"])})
+    # exactly flat tetrahedra (integer coordinates, four coplanar vertices): "all signed volumes positive" must fail on them
+    for k in range(10 if tier == "quick" else 60):
+        v, t0 = gm.kuhn_box(1, rng.choice([1, 2]), 1)
+        t0 = [list(r) for r in gm.orient_tets(v, t0)]
+        P = np.array(v)
+        flat = None
+        for _try in range(200):
+            q = rng.sample(range(len(v)), 4)
+            if abs(gm.tet_vol6(v, q)) == 0 and len({tuple(P[i]) for i in q}) == 4:
+                flat = q
+                break
+        if flat is None:
+            continue
+        keep = [r for r in t0 if rng.random() < 0.7] or t0[:1]
+        mode = k % 3
+        if mode == 1:
+            keep, _ = gm.flip_some(keep, rng, 0.4)
+        tt = keep + [flat] if mode != 2 else [flat] + keep
+        cases.append({"family": "flat_tet_" + ["oriented", "mixed", "oriented_first"][mode], "v": v, "t": tt, "tdtype": "int64"})
     # large int32 meshes (implementation + oracles only; too large to evaluate inside Coq)
     for npts in ([2048, 4096] if tier == "quick" else [1500, 2048, 3000, 4096, 8192]):
         cases.append({"family": "large_delaunay_int32", "tdtype": "int32",
